@@ -24,6 +24,7 @@ func init() {
 			{ID: "C10.R6", Floor: 2, Doc: "NetworkTopologyStrategy: in every block, hosts appended to the replica list and additions to the per-DC replica count balance", Run: c10r6},
 			{ID: "C10.R7", Floor: 2, Doc: "the replica list stored for a token range is built in that range's own iteration (fresh list filled by the walk from that token), never taken from a cache or an outer variable", Run: c10r7},
 			{ID: "C10.R8", Floor: 1, Doc: "NetworkTopologyStrategy: the all-racks-seen test that lets the skipped hosts in is made on the rack set that already contains the current host's rack", Run: c10r8},
+			{ID: "C10.R9", Floor: 4, Doc: "ring lookups: binary search over the whole ring, result used as found or wrapped to index 0", Run: c10r9},
 		},
 	})
 }
@@ -1845,4 +1846,117 @@ func c10r8(p *Program, r *Report) {
 	if n == 0 {
 		r.Unresolved("networkTopology.replicaMap: no loop that lets the skipped hosts into the replica list was found")
 	}
+}
+
+// c10r9: the owner of a token is the first ring entry whose token is >= the token, and entry 0 when there is none.
+// In replicasFor and GetHostForToken: sort.Search runs over len(X) of the very slice X that is then indexed; the
+// search result is only ever replaced by the constant 0, and only where it is known to be past the end; X is indexed
+// by that variable or by the constant 0, nothing else.
+func c10r9(p *Program, r *Report) {
+	for _, name := range []string{"(tokenRingReplicas).replicasFor", "(*tokenRing).GetHostForToken"} {
+		fi := r.NeedFunc(name)
+		if fi == nil {
+			continue
+		}
+		g := p.GraphOf(fi)
+		info := g.Info
+		facts := g.GuardFacts()
+		var search *ast.CallExpr
+		for _, c := range callsIn(fi.Decl.Body) {
+			if calleeName(info, c) == "sort.Search" && len(c.Args) == 2 && search == nil {
+				search = c
+			}
+		}
+		if search == nil {
+			r.Unresolved("%s: no sort.Search call", name)
+			continue
+		}
+		pv := resultVarOf(p, search, 0)
+		pid := identNamed(fi, pv)
+		if pv == "" || pid == nil {
+			r.Unresolved("%s: the search result is not bound to a variable", name)
+			continue
+		}
+		pobj := info.Uses[pid]
+		// the slice that is indexed with the result
+		var ring ast.Expr
+		inspectNoLit(fi.Decl.Body, func(x ast.Node) bool {
+			if ix, ok := x.(*ast.IndexExpr); ok && isIdentOf(info, ix.Index, pobj) && ring == nil {
+				ring = ix.X
+			}
+			return true
+		})
+		if ring == nil {
+			r.Unresolved("%s: the search result never indexes a slice", name)
+			continue
+		}
+		ringS := exprStr(ring)
+		// names for len(ring)
+		sizes := map[string]bool{"len(" + ringS + ")": true}
+		ast.Inspect(fi.Decl.Body, func(m ast.Node) bool {
+			if as, ok := m.(*ast.AssignStmt); ok && len(as.Lhs) == 1 && len(as.Rhs) == 1 && exprStr(as.Rhs[0]) == "len("+ringS+")" {
+				if lid, isId := as.Lhs[0].(*ast.Ident); isId && info.Defs[lid] != nil && singleAssigned(info, fi.Decl.Body, info.Defs[lid]) {
+					sizes[lid.Name] = true
+				}
+			}
+			return true
+		})
+		r.Check(sizes[exprStr(ast.Unparen(search.Args[0]))], search, name+" searches the whole ring", "sort.Search(len("+ringS+"), ...)",
+			"the binary search covers "+exprStr(search.Args[0])+" entries instead of all len("+ringS+"): a token above the entries searched is attributed to the last entry searched instead of wrapping around to the first range (or the last range is never found)")
+		// other assignments of the result variable
+		ast.Inspect(fi.Decl.Body, func(x ast.Node) bool {
+			as, ok := x.(*ast.AssignStmt)
+			if !ok {
+				return true
+			}
+			for i, l := range as.Lhs {
+				if !isIdentOf(info, l, pobj) || (len(as.Rhs) == 1 && ast.Unparen(as.Rhs[0]) == ast.Expr(search)) {
+					continue
+				}
+				okZero := false
+				if as.Tok == token.ASSIGN && i < len(as.Rhs) {
+					if k, isK := constInt(info, as.Rhs[i]); isK && k == 0 {
+						okZero = true
+					}
+				}
+				past := false
+				if f, okF := facts.Before(as); okF {
+					for sz := range sizes {
+						if v, known := f.KnownStr(pv + " < " + sz); known && !v {
+							past = true
+						}
+						if v, known := f.KnownStr(pv + " == " + sz); known && v {
+							past = true
+						}
+						if v, known := f.KnownStr(sz + " == " + pv); known && v {
+							past = true
+						}
+					}
+				}
+				r.Check(okZero && past, as, name+" wraps a result past the end to the first entry", pv+" = 0 where "+pv+" >= len("+ringS+")",
+					"the search result is replaced by "+exprStr(as.Rhs[minInt(i, len(as.Rhs)-1)])+ifs(past, "", " at a point where it is not known to be past the end")+": a token above the highest ring token must be owned by entry 0 (the range that wraps around), and no other result may be changed")
+			}
+			return true
+		})
+		// index expressions on the ring
+		inspectNoLit(fi.Decl.Body, func(x ast.Node) bool {
+			ix, ok := x.(*ast.IndexExpr)
+			if !ok || exprStr(ix.X) != ringS {
+				return true
+			}
+			okIdx := isIdentOf(info, ix.Index, pobj)
+			if k, isK := constInt(info, ix.Index); isK && k == 0 {
+				okIdx = true
+			}
+			r.Check(okIdx, ix, name+" indexes the ring with the search result or 0", exprStr(ix), "the ring is indexed with "+exprStr(ix.Index)+", neither the search result nor the wrap-around entry 0")
+			return true
+		})
+	}
+}
+
+func minInt(a, b int) int {
+	if a < b {
+		return a
+	}
+	return b
 }
